@@ -245,7 +245,8 @@ def ld_cell(acc, rng, hooked):
     target.budget_cpu(cpu, hooked)
     # populate by walking the reference addressing for each VA with random choices of block / table / invalid at each level
     st_ = {'sctlr': 1 | (big << 25), 'ttbcr': (1 << 31) | t0sz | (t1sz << 16) | (rng.getrandbits(1) << 7 if rng.random() < 0.1 else 0) | (rng.getrandbits(1) << 23 if rng.random() < 0.1 else 0),
-           'ttbr0_64': base0, 'ttbr1_64': base1, 'mair0': rng.choice((0x00440400, rng.getrandbits(32), 0xFF440400)), 'mair1': rng.getrandbits(32),
+           # bits <55:48> of a 64-bit TTBR hold the ASID and are not part of the table base
+           'ttbr0_64': base0 | ((rng.getrandbits(8) << 48) if rng.random() < 0.5 else 0), 'ttbr1_64': base1 | ((rng.getrandbits(8) << 48) if rng.random() < 0.5 else 0), 'mair0': rng.choice((0x00440400, rng.getrandbits(32), 0xFF440400)), 'mair1': rng.getrandbits(32),
            'dfsr': rng.getrandbits(14), 'dfar': rng.getrandbits(32), 'scr': 0, 'cpsr': gen.cpsr_value(m=gen.MODES['svc']), 'fcseidr': 0}
     image = bytearray(TABLES[1])
     for va in vas:
